@@ -187,6 +187,22 @@ PROPS = {
         note="value model mc/vmodel.c trusted",
         assumptions=COMMON_ASSUMPTIONS,
     ),
+    "C12": dict(
+        level="model_checking",
+        runs=[dict(harness="c12", variant="san", shards=16)],
+        deadline=dict(quick=300, thorough=2400),
+        rule="trees: every value of nesting <= 1 with <= 2 children over leaves {1,null,'s'} and member names {'',a,/,~,~0,~1,a/b,m~n,0,01,-,1} (all ordered name pairs), plus "
+             "nesting-2 containers over a pool of such values with all name pairs; pointers: the correctly escaped pointer of every node, every string over {/,~,0,1,a,-} up to the "
+             "length bound, and one-step-beyond targets (new key, -, index len, len+1, escaped keys, empty token); operations get, getf, getf with split format, set and setf with an int, "
+             "null and container value; non-trivial = distinct container tree",
+        bound=dict(quick="get: all 9331 strings <= 5 on nesting-1 trees, <= 4 on nesting-2 (pool of 8); set: <= 4 / <= 3", thorough="get <= 5 everywhere (pool of 16); set <= 5 / <= 4"),
+        states_stat="cases", transitions_stat="calls",
+        technique="exhaustive enumeration of adversarial-key trees x all short pointer strings on the real json_pointer code (ASan build), RFC 6901 evaluator over the value model as oracle",
+        claim="for every (tree, pointer) pair success/failure equals RFC 6901 evaluation, a successful lookup returns the very node found by walking the tree, set places the value exactly "
+              "where the reference does and nowhere else, ownership moves only on success, failures leave the tree unchanged; printf-style variants agree",
+        note="pointers with a '~' not followed by 0 or 1 are syntactically invalid in RFC 6901; their (lenient) handling is not compared; array set beyond the end follows C07 (null gaps)",
+        assumptions=COMMON_ASSUMPTIONS,
+    ),
 }
 
 NOT_APPLICABLE = {}
